@@ -67,7 +67,13 @@ Definition catalogue : list (string * string) := [
    "C10_membership_only");
   ("layer.rs|load_impl|iter|let path_set = contents.values().map(|p| p.to_string_lossy().to_lowercase()).collect()",
    "C10_membership_only");
+  ("layer.rs|load_impl|type|let mut seen_files = HashSet::new()",
+   "C10_membership_only");
   ("layer.rs|load|iter|let path_set = layers.iter().skip(1).map(|l| l.path.to_string_lossy().to_lowercase()).collect()",
+   "C10_membership_only");
+  ("layer.rs|load|type|let mut seen_dirs = HashSet::new()",
+   "C10_membership_only");
+  ("layer.rs|load|type|let mut seen_names = HashSet::new()",
    "C10_membership_only");
   ("layer.rs|new|type|glyphs: BTreeMap::new(), name, path, contents: BTreeMap::new(), path_set: HashSet::new(), color: None, lib: Default::default(),",
    "C10_membership_only");
